@@ -2,8 +2,6 @@ package rules
 
 import (
 	"fmt"
-	"go/token"
-	"go/types"
 	"strings"
 
 	"golang.org/x/tools/go/ssa"
@@ -27,12 +25,23 @@ var llmnrSections = []struct{ count, sec, enc, dec string }{
 // RFC 1035 §4.1.1 header order (LLMNR re-uses it, RFC 4795 §2.1.1).
 var dnsHeaderOrder = []string{"ID", "Flags", "QDCount", "ANCount", "NSCount", "ARCount"}
 
+var c09RTSpec = wRTSpec{
+	prop: "C09", pkg: llmnrPkg, msgType: "Message", hdrField: "Header", hdrType: "Header",
+	hdrWords: dnsHeaderOrder, counts: []string{"QDCount", "ANCount", "NSCount", "ARCount"},
+	secs:  []string{"Questions", "Answers", "Authority", "Additional"},
+	qType: "Question", rrType: "ResourceRecord", rdata: "RData", rdlen: "RDLength", nameFld: "Name",
+	encRecv: "Message", encName: "Encode", decRecv: "", decName: "DecodeMessage", decIsMethod: false,
+	nameEnc: [2]string{"", "EncodeDomainName"}, nameDec: [2]string{"", "DecodeDomainName"}, nameIsPtr: false,
+}
+
 func runC09(c *Ctx) {
 	p, r := c.P, c.R
 	r.Explanation = "C09 LLMNR codec, decided structurally on go/ssa with internal/wire (encoder layouts read backwards from the returned slice with flow-sensitive scratch-buffer contents; decoder layouts read forwards from every read of the input buffer, with symbolic [start,end) extents over the cursor). " +
 		"R1 `sym`: EncodeQuestion⇄DecodeQuestion, EncodeResourceRecord⇄DecodeResourceRecord and Message.Encode⇄DecodeMessage list the same fields in the same order with the same widths and helper pairs (one obligation per atom); `order`: every multi-byte integer is big-endian on both sides; `count`: each decoder consumes its fields contiguously from the cursor it is given, loop cursors advance by exactly what the body read, sections follow the 12-byte header and each other without gap, and the returned new offset is the end of the last read; `guard`: every length check on the success path establishes exactly the end of the reads it protects (offset+4, offset+10, offset+RDLENGTH, HeaderSize); `spec`: the header is the six 16-bit words of RFC 1035 §4.1.1 in order; `length`: RDLENGTH on the wire is len(RData) in the encoder and the width of the RData read in the decoder. " +
 		"R2 `sections`: for (QDCount,Questions), (ANCount,Answers), (NSCount,Authority), (ARCount,Additional): Encode derives the count from len(section) AND ranges over that section emitting each element with the element encoder; DecodeMessage stores the count AND has a loop bounded by it that appends the element decoder's result to that section; sections appear in RFC order. " +
 		"R3 `names`: the byte(len(label)) narrowing in EncodeDomainName is dominated by a guard that admits exactly lengths <= MaxLabelLength (E1 proof of <= 63, and 62 must not be provable); MaxLabelLength=63, labelPointer=0xC0 and the pointer mask 0x3FFF are mutually consistent (mask = 0xFFFF ^ tag<<8, no legal length carries tag bits) and used in the tag test ((b & tag) == tag), the mask, ValidateDomainName and the encoder; the decoder's label read starts after its length byte and is as long as it says, the cursor advances to its end, the terminator consumes 1 byte and a pointer 2 bytes (big-endian, read at the length byte's position); the recursive call through a compression pointer is guarded so that pointer < start (E1), i.e. strictly backwards. " +
+		"COMPLETENESS BEFORE VERDICT: a layout is compared only when it was read completely. When the output buffer, the input buffer (or a re-slice of it) or the bytes of a field pass through code internal/wire did not read — an in-module helper or closure it could not analyse at the call site, a method of a cursor type that keeps more state than the unread tail, a value returned through variables (range-over-func bodies), an SSA shape it does not parse — the clauses that depend on that layout are reported NOT DECIDED (discharged, with a note), never as a mismatch, and count as present for the floors; then the whole-message pair is decided instead by `roundtrip`: Encode and DecodeMessage are interpreted over the bit-lane domain (internal/absint, nothing is executed) on one message with 2/1/3/4 entries whose integer fields are symbolic, and every field must come back bit for bit, the header words must be the RFC words in order and every multi-byte field big-endian. A violation is only reported for a construct that was positively observed. " +
+		"R3 decoder shapes: a compression pointer may be followed by a call of DecodeDomainName (in the function or in a helper such as decodeNamePointer(data, at, start), proved `pointer < offset` through the chain of calls) or by a jump of the label loop's cursor (proved by a lexicographic ranking: a loop variable that strictly decreases and stays >= 0 at every jump and is unchanged while labels are read, the cursor advancing there); the offset returned after a pointer may be kept in a set-once variable (`if end < 0 { end = curr + 2 }`). " +
 		"NOT decided: agreement with an independent RFC 1035 codec (total name length <= 255 on decode, label types 0x40/0x80, text form of the root name, empty labels in the encoder), value-level round trip of names (strings.Split/Join), and that the element codecs are applied to equal values (only the structure is compared)."
 	r.Assumptions = []string{
 		"go/types + go/ssa (x/tools v0.50.0) are faithful to the source",
@@ -69,9 +78,10 @@ func runC09(c *Ctx) {
 	layouts := map[string]string{}
 	// ---- R1 ----------------------------------------------------------------
 	for _, pr := range []struct {
-		what string
-		e, d *wcodec
-	}{{"EncodeQuestion⇄DecodeQuestion", encQ, decQ}, {"EncodeResourceRecord⇄DecodeResourceRecord", encRR, decRR}, {"Message.Encode⇄DecodeMessage", encM, decM}} {
+		what       string
+		e, d       *wcodec
+		nSym, nOrd int // instances the pair contributes to `sym` / each side to `order`
+	}{{"EncodeQuestion⇄DecodeQuestion", encQ, decQ, 3, 2}, {"EncodeResourceRecord⇄DecodeResourceRecord", encRR, decRR, 6, 4}, {"Message.Encode⇄DecodeMessage", encM, decM, 8, 6}} {
 		if pr.e == nil || pr.d == nil {
 			r.Undecided("sym", pr.what, "", "one side could not be extracted")
 			continue
@@ -79,11 +89,40 @@ func runC09(c *Ctx) {
 		layouts[pr.e.label()] = wire.Render(pr.e.enc)
 		layouts[pr.d.label()] = wire.Render(pr.d.dec.Atoms)
 		c.guard("sym", pr.what, pr.d.pos, func() {
-			wCompare(c, "sym", pr.what, pr.d.pos, pr.e, pr.d, pr.e.enc, pr.d.dec.Atoms, pairs)
-			wOrder(c, pr.e, pr.e.enc, "encoder")
-			wOrder(c, pr.d, pr.d.dec.Atoms, "decoder")
-			wCheckDec(c, pr.d)
+			if why := wPairIncomplete(pr.e, pr.d); why != "" {
+				wND(c, "sym", pr.what, pr.d.pos, why, pr.nSym)
+			} else {
+				wCompare(c, "sym", pr.what, pr.d.pos, pr.e, pr.d, pr.e.enc, pr.d.dec.Atoms, pairs)
+			}
+			if pr.e.incomplete != "" {
+				wND(c, "order", pr.e.label()+" encoder", pr.e.pos, pr.e.incomplete, pr.nOrd)
+			} else {
+				wOrder(c, pr.e, pr.e.enc, "encoder")
+			}
+			if pr.d.incomplete != "" {
+				wND(c, "order", pr.d.label()+" decoder", pr.d.pos, pr.d.incomplete, pr.nOrd)
+				wND(c, "count", pr.d.label()+": reads are contiguous and the cursor ends at the last read", pr.d.pos, pr.d.incomplete, 1)
+				wND(c, "guard", pr.d.label()+": each length check establishes exactly the end of the reads it protects", pr.d.pos, pr.d.incomplete, 1)
+			} else {
+				wCheckDec(c, pr.d)
+				wOrder(c, pr.d, pr.d.dec.Atoms, "decoder")
+			}
 		})
+	}
+	if encM != nil && decM != nil {
+		// the lane round trip of a whole message goes through the element codecs
+		// too: it stands in for any of the three pairs that was not decided
+		var whys []string
+		for _, pr := range [][2]*wcodec{{encQ, decQ}, {encRR, decRR}, {encM, decM}} {
+			if pr[0] != nil && pr[1] != nil {
+				if w := wPairIncomplete(pr[0], pr[1]); w != "" {
+					whys = append(whys, w)
+				}
+			}
+		}
+		if why := wRTWanted(strings.Join(whys, "; ")); why != "" {
+			c.guard(wRTRule, "Message", decM.pos, func() { wRoundTrip(c, c09RTSpec, why) })
+		}
 	}
 	r.Floor("sym", 3+6+8) // 3+6+10 once Authority/Additional are encoded and decoded
 	r.Floor("order", 2*(2+4+6))
@@ -113,12 +152,16 @@ func runC09(c *Ctx) {
 		layouts["EncodeDomainName"] = wire.Render(encN.enc)
 		c.guard("names", "domain names", encN.pos, func() { c09Names(c, w, encN, decN, valN, layouts) })
 	}
-	r.Floor("names", 18)
+	// 4 constants, 3 encoder clauses, 8 decoder clauses; the length-limit guards
+	// found in ValidateDomainName / EncodeDomainName come on top (they may be
+	// merged into one shared check, so they are not part of the floor)
+	r.Floor("names", 15)
 
 	r.Extra["layouts"] = layouts
 	r.Extra["functions_analysed"] = []string{"EncodeQuestion", "DecodeQuestion", "EncodeResourceRecord", "DecodeResourceRecord", "Message.Encode", "DecodeMessage", "EncodeDomainName", "DecodeDomainName", "ValidateDomainName"}
 	r.Extra["codec_pairs"] = 4
 	r.Extra["sections_table"] = []string{"QDCount↔Questions (EncodeQuestion/DecodeQuestion)", "ANCount↔Answers", "NSCount↔Authority", "ARCount↔Additional (EncodeResourceRecord/DecodeResourceRecord)"}
+	r.Extra["idioms_round2"] = "encoders: one pre-sized header written by PutUintN(buf[2*i:], w) in a loop over a constant table (unrolled writes), strings.Builder / bytes.Buffer accumulation (Write, WriteByte, WriteString), single bytes byte(v>>8), byte(v) merged into one big-/little-endian field; decoders: re-sliced tails (len(data[off:]) guards, copy(dst, tail) extents), (T, error) peek helpers, cursor types whose only state is the unread tail (take/name/records methods analysed at their call sites, windows returned by take), bytes assembled with shifts and ors; names: iterative pointer following, pointer resolution in a helper"
 	r.Extra["idioms"] = "encoders: append chains, AppendUintN, scratch buffers re-used across PutUintN/append (flow-sensitive), fixed-offset writes into a make, by-value subjects, range loops, in-module `put` helpers and section helpers func(buf, records) ([]byte, error) analysed at their call sites, loops over constant tables of fields/sections (unrolled), one run-time-sized buffer filled at computed offsets, slices.Concat; decoders: UintN(data[off:]) / data[i] / data[a:b] / copy / bytes.Clone, (value, newOffset, err) helpers (codec units compared as a whole, other helpers — including loops over a section — analysed at their call sites), loop φ cursors (header- or latch-tested, range-over-int), cursors captured by closures, per-section closures, in-module `get` helpers"
 }
 
@@ -128,6 +171,10 @@ func c09Length(c *Ctx, enc, dec *wcodec) {
 	// encoder: the atom before RData carries len(RData)
 	ea := enc.enc
 	okE := false
+	if enc.incomplete != "" {
+		wND(c, "length", "EncodeResourceRecord: RDLENGTH = len(RData)", enc.pos, enc.incomplete, 1)
+		okE, ea = true, nil
+	}
 	for i := 0; i+1 < len(ea); i++ {
 		if ea[i+1].Kind == "bytes" && ea[i+1].Field == "RData" {
 			if ea[i].Kind == "fixed" && ea[i].Expr == "len(RData)" {
@@ -144,6 +191,10 @@ func c09Length(c *Ctx, enc, dec *wcodec) {
 	}
 	da := dec.dec.Atoms
 	okD := false
+	if dec.incomplete != "" {
+		wND(c, "length", "DecodeResourceRecord: RData is RDLENGTH bytes", dec.pos, dec.incomplete, 1)
+		okD, da = true, nil
+	}
 	for i := 0; i < len(da); i++ {
 		if da[i].Kind != "bytes" || da[i].Field != "RData" || da[i].Off == nil || da[i].End == nil {
 			continue
@@ -177,6 +228,10 @@ func c09Header(c *Ctx, enc, dec *wcodec) {
 		name  string
 	}{{enc, enc.enc, "Message.Encode"}, {dec, dec.dec.Atoms, "DecodeMessage"}} {
 		sum := 0
+		if side.k.incomplete != "" {
+			wND(c, "spec", side.name+": header words", side.k.pos, side.k.incomplete, len(dnsHeaderOrder))
+			continue
+		}
 		for i, f := range dnsHeaderOrder {
 			key := fmt.Sprintf("%s: header word %d is %s", side.name, i, f)
 			if i >= len(side.atoms) {
@@ -230,35 +285,46 @@ func c09Sections(c *Ctx, enc, dec *wcodec) {
 		// Encode: count from len(section)
 		key := fmt.Sprintf("Message.Encode: %s = len(%s)", s.count, s.sec)
 		found := false
-		for _, a := range enc.enc {
-			if a.Kind == "fixed" && (a.Field == cf || (a.Field == "" && a.Expr == "len("+s.sec+")")) {
-				found = true
-				if a.Expr == "len("+s.sec+")" {
-					r.OK("sections", key, c.P.Rel(a.Pos), "the emitted count is len("+s.sec+")")
-				} else {
-					r.Fail("sections", key, c.P.Rel(a.Pos), fmt.Sprintf("the emitted %s is [%s], not len(%s): the count on the wire can disagree with the records that follow", s.count, a.String(), s.sec))
+		if enc.incomplete != "" {
+			wND(c, "sections", "Message.Encode: "+s.sec+" (count and elements)", enc.pos, enc.incomplete, 2)
+		}
+		if dec.incomplete != "" {
+			wND(c, "sections", "DecodeMessage: "+s.sec+" (count and elements)", dec.pos, dec.incomplete, 2)
+		}
+		if enc.incomplete == "" {
+			for _, a := range enc.enc {
+				if a.Kind == "fixed" && (a.Field == cf || (a.Field == "" && a.Expr == "len("+s.sec+")")) {
+					found = true
+					if a.Expr == "len("+s.sec+")" {
+						r.OK("sections", key, c.P.Rel(a.Pos), "the emitted count is len("+s.sec+")")
+					} else {
+						r.Fail("sections", key, c.P.Rel(a.Pos), fmt.Sprintf("the emitted %s is [%s], not len(%s): the count on the wire can disagree with the records that follow", s.count, a.String(), s.sec))
+					}
 				}
 			}
-		}
-		if !found {
-			r.Fail("sections", key, enc.pos, "Encode does not emit "+s.count)
-		}
-		// Encode: ranges over the section and emits each element
-		key = fmt.Sprintf("Message.Encode: emits every element of %s", s.sec)
-		found = false
-		for _, a := range enc.enc {
-			if a.Kind != "repeat" || a.Over != s.sec {
-				continue
+			if !found {
+				r.Fail("sections", key, enc.pos, "Encode does not emit "+s.count)
 			}
-			found = true
-			if len(a.Body) == 1 && a.Body[0].Kind == "nested" && a.Body[0].Field == s.sec+"[*]" && a.Body[0].Callee != nil && a.Body[0].Callee == c.P.Func(llmnrPkg, "", s.enc) && !a.Body[0].Cond {
-				r.OK("sections", key, c.P.Rel(a.Pos), "range over "+s.sec+" appending "+s.enc+"(element)")
-			} else {
-				r.Fail("sections", key, c.P.Rel(a.Pos), "the loop over "+s.sec+" does not append exactly "+s.enc+"(element): "+a.String())
+			// Encode: ranges over the section and emits each element
+			key = fmt.Sprintf("Message.Encode: emits every element of %s", s.sec)
+			found = false
+			for _, a := range enc.enc {
+				if a.Kind != "repeat" || a.Over != s.sec {
+					continue
+				}
+				found = true
+				if len(a.Body) == 1 && a.Body[0].Kind == "nested" && a.Body[0].Field == s.sec+"[*]" && a.Body[0].Callee != nil && a.Body[0].Callee == c.P.Func(llmnrPkg, "", s.enc) && !a.Body[0].Cond {
+					r.OK("sections", key, c.P.Rel(a.Pos), "range over "+s.sec+" appending "+s.enc+"(element)")
+				} else {
+					r.Fail("sections", key, c.P.Rel(a.Pos), "the loop over "+s.sec+" does not append exactly "+s.enc+"(element): "+a.String())
+				}
+			}
+			if !found {
+				r.Fail("sections", key, enc.pos, fmt.Sprintf("Encode sets %s from len(%s) in the header but never emits the %s records: a message with one %s record is encoded with %s=1 and no record (any parser, including DecodeMessage after repair, runs off the end)", s.count, s.sec, s.sec, s.sec, s.count))
 			}
 		}
-		if !found {
-			r.Fail("sections", key, enc.pos, fmt.Sprintf("Encode sets %s from len(%s) in the header but never emits the %s records: a message with one %s record is encoded with %s=1 and no record (any parser, including DecodeMessage after repair, runs off the end)", s.count, s.sec, s.sec, s.sec, s.count))
+		if dec.incomplete != "" {
+			continue
 		}
 		// Decode: reads the count
 		key = fmt.Sprintf("DecodeMessage: reads %s", s.count)
@@ -323,6 +389,10 @@ func c09Sections(c *Ctx, enc, dec *wcodec) {
 		pos  string
 	}{{"Message.Encode", encOrder, enc.pos}, {"DecodeMessage", decOrder, dec.pos}} {
 		key := o.name + ": sections in RFC order"
+		if (o.name == "Message.Encode" && enc.incomplete != "") || (o.name == "DecodeMessage" && dec.incomplete != "") {
+			wND(c, "sections", key, o.pos, "layout not read completely", 1)
+			continue
+		}
 		if inOrder(o.got) {
 			r.OK("sections", key, o.pos, strings.Join(o.got, ", "))
 		} else {
@@ -366,6 +436,11 @@ func c09Names(c *Ctx, w *prove.World, enc, decA, val *wcodec, layouts map[string
 	// --- encoder: narrowing byte(len(label)) is lossless and admits exactly <= 63
 	var lenAtom *wire.Atom
 	var labelAtom *wire.Atom
+	if enc.incomplete != "" {
+		wND(c, "names", "EncodeDomainName: byte(len(label)) is guarded by len(label) <= MaxLabelLength", enc.pos, enc.incomplete, 1)
+		wND(c, "names", "EncodeDomainName: the length byte is followed by exactly that label", enc.pos, enc.incomplete, 1)
+		wND(c, "names", "EncodeDomainName: terminated by a zero length byte", enc.pos, enc.incomplete, 1)
+	}
 	for _, a := range enc.enc {
 		if a.Kind != "repeat" {
 			continue
@@ -377,7 +452,8 @@ func c09Names(c *Ctx, w *prove.World, enc, decA, val *wcodec, layouts map[string
 		}
 	}
 	key := "EncodeDomainName: byte(len(label)) is guarded by len(label) <= MaxLabelLength"
-	if lenAtom == nil {
+	if enc.incomplete != "" {
+	} else if lenAtom == nil {
 		r.Undecided("names", key, enc.pos, "no length byte followed by the label bytes in the encoder's loop: "+wire.Render(enc.enc))
 	} else {
 		at := lenAtom.At
@@ -385,9 +461,19 @@ func c09Names(c *Ctx, w *prove.World, enc, decA, val *wcodec, layouts map[string
 		if ci, ok := conv.(ssa.Instruction); ok {
 			at = ci
 		}
-		le := wProveLE(w, at, lenAtom.LenOf, maxLabel, true)
+		le := wProveLenLEDeep(c, w, at, lenAtom.LenOf, maxLabel)
 		tooStrict := wProveLE(w, at, lenAtom.LenOf, maxLabel-1, true)
+		var whole ssa.Value
+		if len(enc.fn.Params) > 0 {
+			whole = enc.fn.Params[0] // the name the labels are cut from
+		}
+		helper := wGuardingHelper(c, at, lenAtom.LenOf, whole)
 		switch {
+		case !le && helper != nil:
+			// the inline check is gone but a validation step runs first: the bound
+			// may be established there (value-level reasoning this rule does not do)
+			wND(c, "names", key, c.P.Rel(lenAtom.Pos), fmt.Sprintf("len(label) <= %d is not established by the guards of EncodeDomainName itself, but %s is called first and its result decides an early exit: the bound may be established there", maxLabel, helper.Name()), 1)
+			r.Note("C09 names: label-length bound NOT DECIDED — validation delegated to %s", helper.Name())
 		case !le:
 			r.Fail("names", key, c.P.Rel(lenAtom.Pos), fmt.Sprintf("len(label) <= %d is not established where the length is narrowed to one byte: a label of %d bytes (or more) is emitted with a length byte that carries label-type bits / wraps", maxLabel, maxLabel+1))
 		case tooStrict:
@@ -411,7 +497,8 @@ func c09Names(c *Ctx, w *prove.World, enc, decA, val *wcodec, layouts map[string
 			okTerm = false
 		}
 	}
-	if okTerm {
+	if enc.incomplete != "" {
+	} else if okTerm {
 		r.OK("names", key, enc.pos, fmt.Sprintf("%d success returns end in const 0", len(enc.encAlts)))
 	} else {
 		r.Fail("names", key, enc.pos, "a success return of EncodeDomainName does not end with the root label (a single zero byte)")
@@ -434,185 +521,8 @@ func c09Names(c *Ctx, w *prove.World, enc, decA, val *wcodec, layouts map[string
 		}
 	}
 
-	// --- decoder
-	dx := wire.New(w, decA.fn)
-	d := dx.Decode()
-	flat := wire.Flatten(d.Atoms)
-	layouts["DecodeDomainName"] = wire.Render(d.Atoms)
-	var lenA, ptrA, recA, labA *wire.Atom
-	var loopOut *wire.Sym
-	for _, a := range d.Atoms {
-		if a.Kind == "repeat" && a.Out != nil {
-			loopOut = a.Out
-		}
-	}
-	for i := range flat {
-		a := &flat[i]
-		switch {
-		case a.Kind == "fixed" && a.Width == 1 && lenA == nil:
-			lenA = a
-		case a.Kind == "fixed" && a.Width == 2 && ptrA == nil:
-			ptrA = a
-		case a.Kind == "nested" && a.Callee == decA.fn && recA == nil:
-			recA = a
-		case a.Kind == "bytes" && labA == nil:
-			labA = a
-		}
-	}
-	if lenA == nil || ptrA == nil || recA == nil || labA == nil || lenA.Off == nil || labA.Off == nil || labA.End == nil || ptrA.Off == nil {
-		r.Undecided("names", "DecodeDomainName: shape", decA.pos, "length byte / pointer / recursive call / label read not all recognised: "+wire.Render(d.Atoms))
-		return
-	}
-	key = "DecodeDomainName: label follows its length byte and is as long as it says"
-	wv, single := labA.End.Sub(*labA.Off).Single()
-	if labA.Off.Equal(*lenA.End) && single && wv == lenA.Val {
-		r.OK("names", key, c.P.Rel(labA.Pos), "label = data[curr+1 : curr+1+length]")
-	} else {
-		r.Fail("names", key, c.P.Rel(labA.Pos), fmt.Sprintf("the label is read from [%s, %s) but its length byte is at %s", dx.SymString(*labA.Off), dx.SymString(*labA.End), dx.SymString(*lenA.Off)))
-	}
-	key = "DecodeDomainName: cursor advances to the end of the label"
-	if loopOut != nil && loopOut.Equal(*labA.End) {
-		r.OK("names", key, c.P.Rel(labA.Pos), "curr += 1 + length")
-	} else {
-		out := "?"
-		if loopOut != nil {
-			out = dx.SymString(*loopOut)
-		}
-		r.Fail("names", key, c.P.Rel(labA.Pos), fmt.Sprintf("after a label ending at %s the cursor continues at %s", dx.SymString(*labA.End), out))
-	}
-	key = "DecodeDomainName: pointer is the 16-bit big-endian word at the length byte"
-	if ptrA.Off.Equal(*lenA.Off) && ptrA.Order == "BE" {
-		r.OK("names", key, c.P.Rel(ptrA.Pos), "binary.BigEndian.Uint16(data[curr:])")
-	} else {
-		r.Fail("names", key, c.P.Rel(ptrA.Pos), fmt.Sprintf("the pointer word is read %s at %s; it is the big-endian word starting at the tagged length byte (%s)", ptrA.Order, dx.SymString(*ptrA.Off), dx.SymString(*lenA.Off)))
-	}
-	// returned offsets
-	key = "DecodeDomainName: terminator consumes 1 byte, pointer consumes 2"
-	okRet := len(d.Rets) > 0 && len(d.RetOff) == len(d.Rets)
-	why := ""
-	for i, ret := range d.Rets {
-		if i >= len(d.RetOff) {
-			break
-		}
-		want := *lenA.End
-		branch := "terminator"
-		if recA.At.Block().Dominates(ret.Block()) {
-			want = *ptrA.End
-			branch = "pointer"
-		}
-		if !d.RetOff[i].Equal(want) {
-			okRet = false
-			why = fmt.Sprintf("the %s return yields offset %s, expected %s", branch, dx.SymString(d.RetOff[i]), dx.SymString(want))
-		}
-	}
-	if okRet {
-		r.OK("names", key, decA.pos, fmt.Sprintf("%d success returns", len(d.Rets)))
-	} else {
-		r.Fail("names", key, decA.pos, "new offset after a name is wrong: "+why)
-	}
-	// tag test and mask
-	key = "DecodeDomainName: pointer tag test is (b & labelPointer) == labelPointer"
-	var tagIf *ssa.If
-	var k1, k2 int64
-	for _, b := range decA.fn.Blocks {
-		iff, ok := b.Instrs[len(b.Instrs)-1].(*ssa.If)
-		if !ok {
-			continue
-		}
-		cmp, ok := iff.Cond.(*ssa.BinOp)
-		if !ok || cmp.Op != token.EQL {
-			continue
-		}
-		for _, sd := range [][2]ssa.Value{{cmp.X, cmp.Y}, {cmp.Y, cmp.X}} {
-			and, ok := sd[0].(*ssa.BinOp)
-			if !ok || and.Op != token.AND {
-				continue
-			}
-			kk2, isK := wConstOf(sd[1])
-			if !isK {
-				continue
-			}
-			for _, as := range [][2]ssa.Value{{and.X, and.Y}, {and.Y, and.X}} {
-				kk1, isK1 := wConstOf(as[1])
-				if isK1 && wire.StripConv(as[0]) == lenA.Val {
-					tagIf, k1, k2 = iff, kk1, kk2
-				}
-			}
-		}
-	}
-	switch {
-	case tagIf == nil:
-		r.Undecided("names", key, decA.pos, "no test of the form (lengthByte & K) == K found")
-	case k1 == tag && k2 == tag && (tagIf.Block().Succs[0] == ptrA.At.Block() || tagIf.Block().Succs[0].Dominates(ptrA.At.Block())):
-		r.OK("names", key, c.P.Rel(tagIf.Pos()), fmt.Sprintf("(b & %#x) == %#x guards the pointer branch", k1, k2))
-	default:
-		r.Fail("names", key, c.P.Rel(tagIf.Pos()), fmt.Sprintf("the pointer branch is taken when (b & %#x) == %#x; both constants must be labelPointer = %#x (otherwise ordinary labels or extended label types are followed as pointers, or pointers are read as labels)", k1, k2, tag))
-	}
-	key = "DecodeDomainName: pointer mask is 0x3FFF and feeds the recursive call"
-	var maskK int64 = -1
-	var masked ssa.Value
-	if recA.Off != nil {
-		if t, ok := recA.Off.Single(); ok {
-			if and, ok := t.(*ssa.BinOp); ok && and.Op == token.AND {
-				for _, as := range [][2]ssa.Value{{and.X, and.Y}, {and.Y, and.X}} {
-					if kk, isK := wConstOf(as[1]); isK && wire.StripConv(as[0]) == ptrA.Val {
-						maskK, masked = kk, and
-					}
-				}
-			}
-		}
-	}
-	wantMask := int64(0xFFFF) ^ (tag << 8)
-	switch {
-	case masked == nil:
-		r.Fail("names", key, c.P.Rel(recA.Pos), "the offset passed to the recursive DecodeDomainName call is not (pointer word & constant): "+symOr(dx, recA.Off))
-	case maskK == wantMask:
-		r.OK("names", key, c.P.Rel(recA.Pos), fmt.Sprintf("mask %#x = 0xFFFF ^ labelPointer<<8", maskK))
-	default:
-		r.Fail("names", key, c.P.Rel(recA.Pos), fmt.Sprintf("the pointer word is masked with %#x; the offset is its low 14 bits (%#x = 0xFFFF ^ labelPointer<<8)", maskK, wantMask))
-	}
-	// strictly backwards
-	key = "DecodeDomainName: compression pointer must point strictly backwards (pointer < start)"
-	call, _ := recA.At.(*ssa.Call)
-	var offParam *ssa.Parameter
-	for _, prm := range decA.fn.Params {
-		if bt, ok := prm.Type().Underlying().(*types.Basic); ok && bt.Kind() == types.Int {
-			offParam = prm
-		}
-	}
-	if call == nil || offParam == nil || len(call.Call.Args) < 2 {
-		r.Undecided("names", key, decA.pos, "recursive call or offset parameter not found")
-	} else if wProveLT(w, call, call.Call.Args[1], offParam) {
-		r.OK("names", key, c.P.Rel(call.Pos()), "E1: the offset argument of the recursive call is < the offset this activation started at")
-	} else {
-		r.Fail("names", key, c.P.Rel(call.Pos()), "pointer < start is not established at the recursive call: a pointer to itself or forwards is followed (unbounded recursion on a 2-byte input C0 0C at offset 12)")
-	}
-	// zero length byte ends the name
-	key = "DecodeDomainName: a zero length byte ends the name"
-	okZero := false
-	for _, b := range decA.fn.Blocks {
-		iff, ok := b.Instrs[len(b.Instrs)-1].(*ssa.If)
-		if !ok {
-			continue
-		}
-		cmp, ok := iff.Cond.(*ssa.BinOp)
-		if !ok || cmp.Op != token.EQL {
-			continue
-		}
-		for _, sd := range [][2]ssa.Value{{cmp.X, cmp.Y}, {cmp.Y, cmp.X}} {
-			if k, isK := wConstOf(sd[1]); isK && k == 0 && wire.StripConv(sd[0]) == lenA.Val {
-				lp := dx.LoopOf(b)
-				if lp != nil && !lp.Blocks[iff.Block().Succs[0]] {
-					okZero = true
-				}
-			}
-		}
-	}
-	if okZero {
-		r.OK("names", key, decA.pos, "length == 0 leaves the label loop")
-	} else {
-		r.Fail("names", key, decA.pos, "no test `length == 0` that leaves the label loop: the encoder's terminating zero byte is not recognised")
-	}
+	// --- decoder (c09_names.go)
+	c09NamesDecoder(c, w, decA, tag, layouts)
 }
 
 func symOr(x *wire.X, s *wire.Sym) string {
